@@ -184,7 +184,9 @@ func TestSim(t *testing.T) {
 				}
 			}
 			if len(res.Samples) < 2 {
-				res.Samples = append(res.Samples, mustJSON(map[string]any{"seed": seed, "scenario": sc}))
+				if js := mustJSON(map[string]any{"seed": seed, "scenario": sc}); len(js) < 64<<10 { // samples are for reading
+					res.Samples = append(res.Samples, js)
+				}
 			}
 		}
 		// determinism spot check: re-run 2% of the seeds and compare digests
